@@ -21,7 +21,10 @@ def cases(seed, tier, broken=()):
         kb = int(rng.integers(3, 8))
         out.append({"rot": rot, "mseed": int(rng.integers(0, 2**31)), "k_base": kb, "k_rot": int(rng.integers(2, kb + 1)), "power": 1 + (i // len(ROTS)) % 4,
                     "data": str(rng.choice(["separated", "near_equal", "white"])), "alpha": [float(rng.choice([0.0, 0.5, 1.0, float(rng.uniform(0, 1))])) for _ in range(2)],
-                    "use_pca": bool(rng.random() < 0.5), "standardize": bool(rng.random() < 0.3), "refit": bool(rng.random() < 0.3)})
+                    "use_pca": bool(rng.random() < 0.5), "standardize": bool(rng.random() < 0.3), "refit": bool(rng.random() < 0.3),
+                    # entirely missing time steps (dropped by the Sanitizer, restored as NaN): the sample count behind the pseudo-norms is that
+                    # of the VALID samples
+                    "nan_rows": bool(i % 4 == 1)})
     return out
 
 
@@ -30,6 +33,16 @@ def nontrivial_key(case, info):
 
 
 def make_fields(case, cplx):
+    X, Y = _make_fields(case, cplx)
+    if case.get("nan_rows"):
+        X, Y = X.copy(deep=True), Y.copy(deep=True)
+        for t in (3, 17, 18, 41, 59):
+            X.values[t] = np.nan
+            Y.values[t] = np.nan
+    return X, Y
+
+
+def _make_fields(case, cplx):
     rng = np.random.default_rng(case["mseed"])
     n = 60
     if case["data"] == "white":
@@ -109,7 +122,11 @@ def run(case):
         for i, (a, b) in enumerate(zip(rec_m, rec_r)):
             checks += 1
             av, bv = np.asarray(a.values), np.asarray(b.transpose(*a.dims).values)
-            e = relerr(av - av.mean(axis=0), bv - bv.mean(axis=0)) if False else relerr(av, bv)
+            if not np.array_equal(np.isnan(av), np.isnan(bv)):
+                F.append(Finding("oracle", "rot_reconstruction", cc + "|nan-pattern", f"field {i}: rotated and unrotated reconstructions are NaN at different places"))
+                continue
+            fin = ~np.isnan(av)
+            e = relerr(av[fin], bv[fin])
             if e > 1e-7:
                 F.append(Finding("oracle", "rot_reconstruction", cc + ("|complex" if cplx or hil else "|real"), f"field {i}: reconstruction from {kr} rotated modes differs from that of {kr} unrotated modes by rel {e:.2e}"))
     except Exception as e:  # noqa: BLE001
@@ -146,6 +163,7 @@ def run(case):
             F.append(Finding("oracle", "rot_expvar_sum", cc, f"summed explained variance {tot_out:.10g} vs {tot_in:.10g} that went in"))
         if power == 1:
             S = np.asarray(r.scores(normalized=True).transpose("time", "mode").values)
+            S = S[~np.isnan(S).any(axis=1)]
             G = S.conj().T @ S
             e = np.abs(G - np.eye(kr)).max()
             checks += 1
@@ -161,4 +179,4 @@ def run(case):
                 if v1 < v0 - 1e-9 * max(abs(v0), 1e-300) - 1e-14:
                     F.append(Finding("oracle", "varimax_criterion_not_lower", cc, f"criterion after rotation {v1:.8g} < before {v0:.8g}"))
     # ---- components of rotated single models have unit norm; transform reproduces scores (C04 covers it in depth)
-    return {"findings": F, "info": {"oracle_checks": {"n": checks}, "dist": {"rot": rot, "power": power, "data": case["data"], "refit": case["refit"]}}}
+    return {"findings": F, "info": {"oracle_checks": {"n": checks}, "dist": {"rot": rot, "power": power, "data": case["data"], "refit": case["refit"], "nan_rows": bool(case.get("nan_rows"))}}}
